@@ -256,29 +256,29 @@ def sublattices(tier, seed):
             [_case(db, k, dict(s), a, limit=lim) for s in illegal for k, lim in kinds3 for a in (None, fx['I'])],
         )
 
-        # S2 numeric x types x kind
-        ac = fx['aircraft_type'] if thorough else fx['aircraft_type'][:3]
-        kk = kinds3 if thorough else kinds3[:2]
-        cases = []
-        for a, b, c, d, s, t in itertools.product(
-            fx['min_distance'], fx['max_distance'], fx['min_seat_capacity'], fx['max_seat_capacity'], fx['service_type'], ac
-        ):
-            f = {
-                k: v
-                for k, v in zip(
-                    ('min_distance', 'max_distance', 'min_seat_capacity', 'max_seat_capacity', 'service_type', 'aircraft_type'),
-                    (a, b, c, d, s, t),
-                )
-                if v is not None
-            }
-            for k, lim in kk:
-                cases.append(_case(db, k, f, limit=lim))
-        add(
-            f'{db}: distance x seats x service x aircraft x kind',
-            {k: fx[k] for k in ('min_distance', 'max_distance', 'min_seat_capacity', 'max_seat_capacity', 'service_type')}
-            | {'aircraft_type': ac, 'kind': kk},
-            cases,
-        )
+        # S2 numeric x types x kind (quick: the full product on the cheap count kind, a reduced
+        # type alphabet on the row-returning kind; thorough: full product x 3 kinds)
+        num_keys = ('min_distance', 'max_distance', 'min_seat_capacity', 'max_seat_capacity', 'service_type', 'aircraft_type')
+        if thorough:
+            plans = [('', fx['service_type'], fx['aircraft_type'], kinds3)]
+        else:
+            plans = [
+                (' (count)', fx['service_type'], fx['aircraft_type'][:3], [('count', None)]),
+                (' (query)', fx['service_type'][:3], fx['aircraft_type'][:2], [('query', None)]),
+            ]
+        for tag, svs, acs, kk in plans:
+            cases = []
+            for vals in itertools.product(
+                fx['min_distance'], fx['max_distance'], fx['min_seat_capacity'], fx['max_seat_capacity'], svs, acs
+            ):
+                f = {k: v for k, v in zip(num_keys, vals) if v is not None}
+                for k, lim in kk:
+                    cases.append(_case(db, k, f, limit=lim))
+            add(
+                f'{db}: distance x seats x service x aircraft x kind{tag}',
+                {k: fx[k] for k in num_keys[:4]} | {'service_type': svs, 'aircraft_type': acs, 'kind': kk},
+                cases,
+            )
 
         # S3 every_nth x dates x filter
         nths = [None, 1, 2, 3, 7, 0, -1] + ([5, 30] if thorough else [])
